@@ -44,3 +44,99 @@ Proof.
   - apply Forall_app. split; [now apply wrap_no13|repeat constructor; discriminate].
   - constructor.
 Qed.
+
+(* ---------- a whole record with CR LF line ends *)
+
+(* pars.Line on "line\r\n": returns the line, consumes both bytes *)
+Lemma pLine_crlf line post o e a k : no_eol line ->
+  exists o' e', pLine (mkst (line ++ 13 :: 10 :: post) o e a k) =
+                (Ok line, mkst post o' e' (a + zlen line + 2) k).
+Proof.
+  intros H. unfold pLine.
+  unfold bind at 1. unfold get. cbn [rest].
+  rewrite (calc_line_crlf line post 0 0 H). cbn [Z.add].
+  assert (Hh : has_n (line ++ 13 :: 10 :: post) (Z.to_nat (zlen line)) = true)
+    by (rewrite nat_zlen; apply has_n_app).
+  rewrite (bind_ok _ _ _ (Some tt, EOther) (mkst (line ++ 13 :: 10 :: post) o (Some (o + zlen line)) a k))
+    by (apply try_ok, request_ok, Hh).
+  unfold bind at 1. unfold buffer. cbn [endr off rest].
+  replace (o + zlen line - o) with (zlen line) by lia.
+  replace (zlen line <? 0) with false by (symmetry; apply Z.ltb_ge; apply zlen_nonneg).
+  rewrite nat_zlen, firstn_app, firstn_all, Nat.sub_diag. cbn [firstn]. rewrite app_nil_r.
+  rewrite (bind_ok _ _ _ tt _ (advance_ok _ o a k (zlen line) (zlen_nonneg _) Hh)).
+  rewrite nat_zlen, skipn_app, skipn_all, Nat.sub_diag. cbn [skipn app].
+  destruct (autoclear_cases (13 :: 10 :: post) (o + zlen line) None (a + zlen line) k) as [o1 ->].
+  unfold skip.
+  assert (Hs : try (request 2 ;;; advance) (mkst (13 :: 10 :: post) o1 None (a + zlen line) k)
+               = (Ok (Some tt, EOther), autoclear (mkst post (o1 + 2) None (a + zlen line + 2) k))).
+  { apply try_ok. rewrite (bind_ok _ _ _ tt (mkst (13 :: 10 :: post) o1 (Some (o1 + 2)) (a + zlen line) k))
+      by (apply request_ok; reflexivity).
+    rewrite (advance_ok (13 :: 10 :: post) o1 (a + zlen line) k 2 ltac:(lia) eq_refl). reflexivity. }
+  rewrite (bind_ok _ _ _ _ _ Hs).
+  destruct (autoclear_cases post (o1 + 2) None (a + zlen line + 2) k) as [o2 ->].
+  exists o2, None. reflexivity.
+Qed.
+
+Lemma crlf_app a b : crlf (a ++ b) = crlf a ++ crlf b.
+Proof. unfold crlf. apply flat_map_app. Qed.
+
+Lemma crlf_id l : no_byte 10 l -> crlf l = l.
+Proof.
+  intros H. unfold crlf. induction H as [|c t Hc _ IH]; [reflexivity|].
+  cbn [flat_map]. replace (c =? 10) with false by (symmetry; now apply Z.eqb_neq). cbn [app]. now rewrite IH.
+Qed.
+
+Lemma crlf_no_gt l : no_gt l -> no_gt (crlf l).
+Proof.
+  intros H. unfold crlf. induction H as [|c t Hc _ IH]; [constructor|].
+  cbn [flat_map]. destruct (c =? 10); cbn [app]; repeat constructor; try discriminate; assumption.
+Qed.
+
+Lemma no_eol_no10 l : no_eol l -> no_byte 10 l.
+Proof. intros H. eapply Forall_impl; [|exact H]. now intros c [? _]. Qed.
+
+(* the text Fasta.WriteTo writes, after LF -> CR LF *)
+Lemma crlf_format desc data : no_eol desc ->
+  crlf (fasta_format desc data) =
+  [62] ++ desc ++ [13; 10] ++ crlf (wrap_force (length data) data 70 ++ [10]).
+Proof.
+  intros Hd. unfold fasta_format. rewrite nl_to_space_id by assumption.
+  rewrite !crlf_app. rewrite (crlf_id desc) by now apply no_eol_no10. reflexivity.
+Qed.
+
+Theorem fasta_record_crlf desc data post o e a k :
+  fasta_ok desc data -> stops post ->
+  exists o' e',
+    fasta_parser (mkst (crlf (fasta_format desc data) ++ post) o e a k) =
+    (Ok (desc, data), mkst post o' e' (a + zlen (crlf (fasta_format desc data))) k).
+Proof.
+  intros [Hd [H10 [H13 Hgt]]] Hp. rewrite (crlf_format desc data Hd).
+  unfold fasta_parser, pMap.
+  set (body := crlf (wrap_force (length data) data 70 ++ [10])).
+  rewrite (bind_ok _ _ _ _ _ (push_eq _ _ _ _ _)).
+  set (F := ((([62] ++ desc ++ [13; 10] ++ body) ++ post), o, a)).
+  assert (HS : exists o1 e1,
+    pSeq3 (pByte 62) pLine (pUntilP (pAny [pByte 62;;; ret tt; pEnd]))
+      (mkst (([62] ++ desc ++ [13; 10] ++ body) ++ post) o e a (F :: k)) =
+    (Ok (62, desc, body), mkst post o1 e1 (a + 1 + zlen desc + 2 + zlen body) (F :: k))).
+  { unfold pSeq3. rewrite (bind_ok _ _ _ _ _ (push_eq _ _ _ _ _)).
+    rewrite <- !app_assoc. cbn [app].
+    rewrite (bind_ok _ _ _ (Some 62, EOther) _ (try_ok _ _ _ _ (pByte_ne 62 _ o e a _ _))).
+    destruct (pLine_crlf desc (body ++ post) (o + 1) None (a + 1)
+               ((62 :: desc ++ 13 :: 10 :: body ++ post, o, a) :: F :: k) Hd) as [o1 [e1 HL]].
+    rewrite (bind_ok _ _ _ (Some desc, EOther) _ (try_ok _ _ _ _ HL)).
+    assert (Hb : no_gt body).
+    { unfold body. apply crlf_no_gt. apply Forall_app. split; [now apply wrap_no_gt | repeat constructor; discriminate]. }
+    pose proof (pUntil_body body post o1 e1 (a + 1 + zlen desc + 2)
+                  (62 :: desc ++ 13 :: 10 :: body ++ post, o, a) (F :: k) Hb Hp) as HU.
+    fold stopq. rewrite (bind_ok _ _ _ (Some body, EOther) _ (try_ok _ _ _ _ HU)).
+    rewrite (bind_ok _ _ _ _ _ (drop_ne _ _ _ _ _ _ _)).
+    eexists _, _. reflexivity. }
+  destruct HS as [o1 [e1 HS]].
+  rewrite (bind_ok _ _ _ (Some (62, desc, body), EOther) _ (try_ok _ _ _ _ HS)).
+  unfold bind at 1. unfold drop. cbn [stk rest off endr apos].
+  destruct (autoclear_cases post o1 e1 (a + 1 + zlen desc + 2 + zlen body) k) as [o2 ->].
+  unfold lift. unfold body. rewrite body_data_crlf by (auto; lia).
+  exists o2, e1. f_equal. f_equal.
+  rewrite !zlen_app. change (zlen [62]) with 1. change (zlen [13; 10]) with 2. lia.
+Qed.
